@@ -3,4 +3,4 @@ From QV Require Import Dict.Micro Dict.MicroFull Dict.MicroFullHist.
 Require Extraction.
 Require Import ExtrOcamlBasic.
 Extraction Language OCaml.
-Extraction "../ocaml/gen/c16micro_model.ml" fstep frun frun_to_sp expand flist finit fget fdone hist_of amap_of linearizable_b pol_code pol_patch ptr_code explore explore_sp.
+Extraction "../ocaml/gen/c16micro_model.ml" fstep frun frun_to_sp expand flist finit fget fdone hist_of amap_of linearizable_b pol_code pol_patch ptr_code ffree explore explore_sp.
